@@ -101,6 +101,8 @@ func (r *Run) exec(ci, oi int, op *Op) {
 		r.opHeadBucket(op)
 	case "rmbucket":
 		r.opRmBucket(op)
+	case "bulk":
+		r.opBulk(op)
 	case "lsbuckets":
 		r.opLsBuckets(op)
 	case "put":
@@ -457,6 +459,26 @@ func (r *Run) opRmBucket(op *Op) {
 	delete(r.M.Buckets, op.B)
 	r.stats.Mutations++
 	r.ok("bucket.semantics")
+}
+
+// opBulk fills a bucket with op.Max small objects through the Go Backend API
+// (set-up for operations whose cost or transaction structure depends on the
+// number of objects, e.g. a forced bucket deletion of a large bucket).
+func (r *Run) opBulk(op *Op) {
+	b := r.bucket(op.B)
+	if b == nil {
+		return
+	}
+	for i := 0; i < op.Max; i++ {
+		key := fmt.Sprintf("bulk/%05d", i)
+		body := []byte(fmt.Sprintf("b%d", i))
+		if _, err := r.Env.Backend.PutObject(op.B, key, map[string]string{}, bytes.NewReader(body), int64(len(body))); err != nil {
+			r.fail("read.content", "an honest upload is refused (Backend.PutObject) "+r.bctx(), "nil", errCode(err))
+		}
+		r.M.Put(b, key, model.NewEntity(body, nil, "bulk"))
+	}
+	r.stats.Mutations++
+	r.probe("bucket filled in bulk")
 }
 
 func (r *Run) listBucketNames() ([]string, *Resp) {
